@@ -15,6 +15,9 @@ pub fn engine_by_key(key: &str) -> Option<Box<dyn DynEngine>> {
         "hist:symmetry" => Box::new(Hist { verdict: Verdict::Symmetry }),
         "inject" => Box::new(crate::engines::inject::Inject),
         "scc" => Box::new(crate::engines::scc::Scc),
+        "container" => Box::new(crate::engines::container::Container),
+        "lifetime" => Box::new(crate::engines::lifetime::Lifetime),
+        "twin" => Box::new(crate::engines::twin::Twin),
         "roundtrip" => Box::new(crate::engines::serde_eng::RoundTrip),
         "untrusted" => Box::new(crate::engines::serde_eng::Untrusted),
         "conc" => Box::new(Conc { only_invariant: None }),
@@ -77,6 +80,12 @@ pub fn run_part(prop: &str, key: &str, seed: u64, runs: u64, tier: Tier, cap_s: 
         eprintln!("[{tag}] run {idx} stalled; re-running it alone in a fresh process");
         match confirm_in_fresh_process(&path) {
             Some(124) => violation = Some((path, v)),
+            Some(c) if c != 0 && c != 1 && c != 2 => {
+                // the process died (signal / abort) again: a crash, reproducible from the file
+                let v = Violation::new("crash", format!("run {idx} kills the process (exit status {c}) — abort, stack overflow or memory error"));
+                let path = write_replay(prop, key, seed, idx, &v, &sc);
+                violation = Some((path, v));
+            }
             other => {
                 eprintln!("HARNESS-ERROR: stall of run {idx} did not reproduce in a fresh process ({other:?})");
                 std::process::exit(2);
@@ -304,6 +313,51 @@ pub fn check(prop: &str, tier: Tier, seed: u64) -> i32 {
                     level: "fault_enumeration",
                     rule: "per seeded base document (valid document of a small graph, four container types, JSON and CBOR): every truncation offset, every structural mutation of the document tree (drop/duplicate/redeclare/retype/shorten a node or edge element, retarget an edge end to a declared or an undeclared key, drop the edge list, drop both, extra element, list replaced by scalar, top-level map) and seeded byte damage (bit flip, byte drop, duplicate, overwrite); a third of the base documents are delivered through a faulty reader (short reads, EINTR, I/O error at k); oracle = the property's disjunction: no panic/hang; Ok(g) => g satisfies mirror/symmetry, lists only members, every node and edge of g is declared by the document (independent strict parse into plain tuples) with at most the listed multiplicity; any listed edge naming an undeclared key => Err; evaluations = mutated documents deserialised; distinct = distinct (flavour, document bytes)".into(),
                     assumptions: vec!["a panic of serde_json/serde_cbor that also occurs when the same bytes are decoded into plain tuples is a dependency defect (counted, not a verdict)".into()],
+                },
+                vec![p],
+                started,
+            )
+        }
+        "C18" => {
+            let p = run_part(prop, "container", seed, budget(tier, 200_000, 3_000_000), tier, cap, "state_and_call");
+            finish(
+                prop,
+                tier,
+                seed,
+                CheckSpec {
+                    level: "exploration",
+                    rule: "seeded histories of container calls (insert of fresh keys, of present keys and of a distinct node object with a present key, remove, get, index, contains, len, is_empty, to_vec, iter, roots/leaves/orphans, to_dot, to_dot_with_attr with seeded attribute callbacks, rebuilding the container as a new instance with another simulated hash seed) interleaved with edge operations on members and non-members through container handles; compared call by call with a BTreeMap model; views compared as key sets against the reference multigraph; DOT text parsed into node and edge statements; distinct = distinct (member set, abstract edge state, call kind) triples".into(),
+                    assumptions: vec!["keys are usize; node identity is observed through the node value's id".into()],
+                },
+                vec![p],
+                started,
+            )
+        }
+        "C19" => {
+            let p = run_part(prop, "lifetime", seed, budget(tier, 200_000, 3_000_000), tier, cap, "history_and_drop_order");
+            finish(
+                prop,
+                tier,
+                seed,
+                CheckSpec {
+                    level: "exploration",
+                    rule: "seeded histories over the four flavours: build (cycles, self-loops, parallel edges), take handles (clones, iterated edges, bfs/dfs/pfs paths, cycles and found nodes, pre/postorder node and edge lists, containers, to_vec and scc output), then drop node handles and result handles one by one in a simulator-chosen order (sync flavours: a simulator-chosen subset of the drops on another thread); node and edge values are registered in a per-run registry; after every drop: no value of a node with a live handle is released, held results stay usable, nothing dropped twice; after the last drop: every node value and every edge-value instance released exactly once; distinct = distinct (flavour, history, handles taken, drop order, thread placement) tuples".into(),
+                    assumptions: vec!["iteration is only performed while every neighbour is alive (the library's documented precondition)".into(), "drops on another thread are sequential (joined), the racing of reference counts is not simulated".into()],
+                },
+                vec![p],
+                started,
+            )
+        }
+        "C15" => {
+            let p = run_part(prop, "twin", seed, budget(tier, 200_000, 3_000_000), tier, cap, "call_and_result");
+            finish(
+                prop,
+                tier,
+                seed,
+                CheckSpec {
+                    level: "exploration",
+                    rule: "the same seeded single-threaded call sequence (edge operations through every handle provenance, queries, edge iteration, bfs/dfs/pfs-min/pfs-max x search/search_path/search_cycle and pre/postorder x nodes/edges with target, transpose, for_each and filter, container calls, roots/leaves/orphans, scc, to_dot, to_dot_with_attr, JSON and CBOR serialisation and round trip, Edge ==, Edge::reverse, Node ==/cmp/deref) is executed on digraph and sync_digraph (resp. ungraph and sync_ungraph) with the same simulated hash seed and the two logs of results (keys and values; container-ordered output canonicalised) are diffed call by call; calls existing on one side only are skipped; distinct = distinct (pair, call, result) triples compared".into(),
+                    assumptions: vec!["one task by the property's own restriction; the lock seam is active on the sync side so that a self-deadlock shows up as a failing call".into(), "panic messages are not compared, only the fact that a call failed".into()],
                 },
                 vec![p],
                 started,
